@@ -129,6 +129,38 @@ pub fn judge_v1(c: &Case, st: &mut Stats) -> Verdict {
             return fail("v1::try_from(&[u8])", format!("{:?} [incomplete={}]", r, r.is_incomplete()));
         }
     }
+    // bytes again, from the reusable read buffer, which a moment ago held another connection's unfinished text: CR-free and
+    // longer than this input's line (a search position remembered per buffer must not survive the buffer's reuse)
+    if x.len() <= 4096 {
+        let cr = x.iter().position(|&b| b == b'\r').unwrap_or(x.len());
+        let mut unfinished = b"PROXY TCP4 10.20.30.40 50.60.70.80 1234 ".to_vec();
+        while unfinished.len() < (cr + 9).min(106) {
+            unfinished.push(b'5');
+        }
+        unfinished.truncate(106);
+        crate::engine::in_arena(&unfinished, |v| {
+            let _ = imp::v1_bytes(v);
+            let _ = imp::auto(v);
+        });
+        let verdict: Option<String> = crate::engine::in_arena(x, |v| match imp::v1_bytes(v) {
+            Ok(r) => {
+                let ok = match &r {
+                    Err(B1::Parse(e)) => c.element != "utf8" && v1_kind_ok(&c.element, e),
+                    Err(B1::InvalidUtf8(_)) => c.element == "utf8" || (c.element == "after-cr" && cr + 1 < v.len() && v[cr + 1] >= 0x80),
+                    Ok(_) => false,
+                };
+                if !ok || !r.is_complete() || r.is_incomplete() {
+                    Some(format!("{:?} [incomplete={}]", r, r.is_incomplete()))
+                } else {
+                    None
+                }
+            }
+            Err(_) => None,
+        });
+        if let Some(obs) = verdict {
+            return fail("v1::try_from(&[u8]) on a reused buffer", obs);
+        }
+    }
     // &str (when the input is text)
     if let Ok(s) = std::str::from_utf8(x) {
         if let Ok(r) = imp::v1_str(s) {
